@@ -35,3 +35,15 @@ REG["C30"] = dict(
                "FlipWeightedCoin proved for any rounding function obeying the IEEE-754 laws stated as premises (partial: the float "
                "unit itself is modelled); determinism/salt-sensitivity/concurrency observed by the runner (race detector).",
 )
+
+REG["C29"] = dict(
+    runner="C29", corr=["Corr.C29Corr"], n=dict(quick=480, thorough=4000), race_suite="C29race",
+    rule="local TLS servers over loopback TCP that let only chosen fingerprints (recognised from the parsed ClientHello) "
+         "complete; Rollers over 2..5 of up to 16 distinguishable ClientHelloIDs (incl. seeded randomized), optional "
+         "remembered working id (possibly unconfigured), 3..5 Dials per scenario with the accept set changing, listeners that "
+         "stop accepting after k connections, a closed port. Distinct by (ids, working, accept set, observed trace); "
+         "non-trivial when at least two fingerprints were tried in the Dial.",
+    trusted_base=["ClientHello fingerprint recogniser in the runner (suites + extension types modulo GREASE)",
+                  "Go crypto/x509 with SSL_CERT_FILE pointing at a throw-away CA"],
+    assumes=["configured HelloIDs are pairwise distinct (NoDup premise)", "the shuffle yields some permutation (premise; observed)"],
+)
